@@ -71,14 +71,18 @@ TEXT = {
           "cwi_bounds: the piece handed back starts at the later lower bound and ends at the earlier upper bound), so the theorems "
           "about normal forms apply to everything built by unions and intersections; a set in normal form that passes "
           "lp_feasibility_set_is_point_int contains exactly one integer (C13_isPointInt_sound: the early-exit count agrees with the "
-          "saturating count) and the interval of lp_feasibility_set_to_interval contains the whole set (C13_toInterval). The converse "
-          "of the status (NEW never reported for a result equal to an operand), the saturation of counts "
+          "saturating count) and the interval of lp_feasibility_set_to_interval contains the whole set (C13_toInterval). The status is also "
+          "complete: for non-empty operands in normal form it is S1 exactly when the first operand is contained in the second "
+          "(C13_status_s1_iff), S2 exactly when the second is contained in the first and the first not in the second (C13_status_s2_iff), and "
+          "NEW / EMPTY only when neither is contained in the other (C13_status_new_or_empty) - the witness that a cleared flag is "
+          "justified is a number in a gap of the normal form (helly1d, witness_low, witness_high, intersectLoop_not_all1), and the second "
+          "flag follows from the first by the symmetry of the classification (cwi_mirror, intersectLoop_flags_swap). The saturation of counts "
           "and picking are tied by correspondence only (exhaustive over all "
           "128x128 normal-form sets on the atoms of {0,1,2}, 512x512 in the thorough tier, plus random pools with algebraic end points, "
           "half of them handed over with the unrefined isolating interval of the root isolation; pick / contains_int / count_int also on "
           "every interval separately).",
   "design_ref": "5.13",
-  "note": "the converse of the intersection status, the saturation of counts and value picking are correspondence only; algebraic end points enter the model as order-isomorphic dyadic surrogates chosen by the harness",
+  "note": "the saturation of counts and value picking are correspondence only; algebraic end points enter the model as order-isomorphic dyadic surrogates chosen by the harness",
   "technique": "Lean 4 proof over mirror model + exhaustive/differential correspondence harness",
  },
  "C20": {
